@@ -11,6 +11,12 @@ for base in ("hugr-py/src/hugr", "scripts"):
             for n in ast.iter_child_nodes(node):
                 if isinstance(n, ast.ClassDef):
                     names.add(f"class:{n.name}")
+                    # class-level names (constants, tables): "cconst:<Class>.<name>"
+                    for b in n.body:
+                        tg = b.targets if isinstance(b, ast.Assign) else ([b.target] if isinstance(b, ast.AnnAssign) else [])
+                        for x in tg:
+                            if isinstance(x, ast.Name):
+                                names.add(f"cconst:{n.name}.{x.id}")
                     walk(n, n.name)
                 elif isinstance(n, (ast.FunctionDef, ast.AsyncFunctionDef)):
                     names.add(n.name)
